@@ -254,6 +254,8 @@ impl Driver {
         }
         self.clock += 10 * BLOCK_INTERVAL_MS;
         set_time(self.clock);
+        // candidate uncles are not part of "genesis tip, empty pool" either
+        ckb_tx_pool::verif::clear_candidate_uncles();
         let snap = std::sync::Arc::clone(&self.node.shared.snapshot());
         self.node.shared.tx_pool_controller().clear_pool(snap).map_err(|e| e.to_string())?;
         self.node.wait_pool_synced()?;
